@@ -111,6 +111,28 @@ Definition srv_ok (s : server) : Prop := srv_base s /\ rb_repl s.
 (* a client that was never sent anything *)
 Definition fresh_ticks (t : client_ticks) : Prop := forall e, mutation_tick t e = None.
 
+(* proof vocabulary: one step of the fold of `buffer_removals` *)
+Definition bstep (s : server) (evs : list (N * N * N)) (rb : list (N * list N)) (e : N) : list (N * list N) :=
+  match get_ent s e with
+  | Some x =>
+    if se_alive x && match se_marker x with Some _ => true | None => false end then
+      let ks := removed_kinds evs e in
+      match ks with
+      | [] => rb
+      | _ => match al_get e rb with
+             | Some old => al_insert e (merge_kinds old ks) rb
+             | None => al_insert e ks rb
+             end
+      end
+    else rb
+  | None => rb
+  end.
+
+(* proof vocabulary: two records of the same client that agree on everything the invariant reads *)
+Definition cl_same (cl cl' : sclient) : Prop :=
+  sc_slot cl' = sc_slot cl /\ sc_authorized cl' = sc_authorized cl /\ sc_vis cl' = sc_vis cl /\
+  forall e, mutation_tick (sc_ticks cl') e <> None <-> mutation_tick (sc_ticks cl) e <> None.
+
 (* ---------- a run that carries what every client has been sent ---------- *)
 
 Record gstate := mkG {
